@@ -1238,6 +1238,236 @@ fn run_rustinputs(case: &Sx) -> Sx {
     }
 }
 
+// ------------------------------------------------------------------ leg simplify
+// The real `dist::pkg::simplify_path` (used by the C and Rust inputs packagers for every input path) on a real
+// directory tree with symbolic links.
+// case: ( ( ( LINKPATH TARGET ) ... ) ( DIR ... ) PATH )   all relative to a scratch root; LINKPATH/DIR/PATH are lists
+//        of components ( name | dotdot | dot ), TARGET likewise with an optional leading `root` = the scratch root
+// obs:  refused | ( ( comp ... ) SAME )    the simplified path (relative to the scratch root) and whether it names the
+//        same file as PATH according to the kernel (canonicalize)
+
+fn comps_to_rel(x: &Sx) -> PathBuf {
+    let mut p = PathBuf::new();
+    for c in x.list() {
+        if c.is_sym("dotdot") {
+            p.push("..");
+        } else if c.is_sym("dot") {
+            p.push(".");
+        } else if c.is_sym("root") {
+        } else {
+            p.push(c.str());
+        }
+    }
+    p
+}
+
+fn run_simplify(case: &Sx) -> Sx {
+    let td = tempfile::Builder::new().prefix("vh-c13s-").tempdir_in("/dev/shm").unwrap();
+    let root = td.path().canonicalize().unwrap();
+    for d in case.arg(1).list() {
+        std::fs::create_dir_all(root.join(comps_to_rel(d))).unwrap();
+    }
+    for l in case.arg(0).list() {
+        let at = root.join(comps_to_rel(l.arg(0)));
+        if let Some(parent) = at.parent() {
+            std::fs::create_dir_all(parent).unwrap();
+        }
+        let t = l.arg(1);
+        let target = if t.list().first().map(|c| c.is_sym("root")).unwrap_or(false) {
+            root.join(comps_to_rel(t))
+        } else {
+            comps_to_rel(t)
+        };
+        let _ = std::os::unix::fs::symlink(target, at);
+    }
+    // the path is written as the user would: root joined with the components, `.`/`..` kept
+    let mut raw = root.as_os_str().as_bytes().to_vec();
+    for c in case.arg(2).list() {
+        raw.push(b'/');
+        if c.is_sym("dotdot") {
+            raw.extend(b"..");
+        } else if c.is_sym("dot") {
+            raw.push(b'.');
+        } else {
+            raw.extend(c.bytes());
+        }
+    }
+    let path = PathBuf::from(OsString::from_vec(raw));
+    match catch(|| pkg::simplify_path(&path)) {
+        Err(_) => Sx::sym("panic"),
+        Ok(Err(_)) => Sx::sym("refused"),
+        Ok(Ok(q)) => {
+            let same = match (std::fs::canonicalize(&path), std::fs::canonicalize(&q)) {
+                (Ok(a), Ok(b)) => a == b,
+                // a path that does not exist: compare the directories it is looked up in and the final name
+                (Err(_), Err(_)) => match (path.parent().and_then(|d| d.canonicalize().ok()), q.parent().and_then(|d| d.canonicalize().ok())) {
+                    (Some(a), Some(b)) => a == b && path.file_name() == q.file_name(),
+                    (None, None) => true,
+                    _ => false,
+                },
+                _ => false,
+            };
+            let rel = match q.strip_prefix(&root) {
+                Ok(r) => Sx::L(r.components().map(|c| Sx::B(c.as_os_str().as_bytes().to_vec())).collect()),
+                Err(_) => Sx::L(vec![Sx::sym("outside"), Sx::B(q.as_os_str().as_bytes().to_vec())]),
+            };
+            Sx::L(vec![rel, Sx::bool(same)])
+        }
+    }
+}
+
+// ------------------------------------------------------------------ leg rustdeps
+// An edit history of a small cargo-style workspace top -> bdep -> cdep built with the installed rustc, packaged by
+// the real client code: `Rust::new` (with its real RlibDepReader and its `rustc -Z ls` cache), the real
+// parse_arguments / generate_hash_key (runs `rustc --emit dep-info`) / into_dist_packagers / write_inputs.
+// case: ( OP ... )   OP = ( build CRATE USES ) (re)compile bdep|ddep to its fixed cargo-style path, USES = 1: its code
+//                        calls into cdep (which is always passed as --extern) | package (top's inputs) | touch
+// obs:  per OP: ok | ( rlib names in the inputs archive, sorted ) | err
+
+fn rustc_run(cwd: &Path, args: &[&str]) -> bool {
+    std::process::Command::new("rustc")
+        .args(args)
+        .current_dir(cwd)
+        .stdout(std::process::Stdio::null())
+        .stderr(std::process::Stdio::null())
+        .status()
+        .map(|s| s.success())
+        .unwrap_or(false)
+}
+
+fn tar_names(tar: &[u8]) -> Vec<String> {
+    let mut pos = 0;
+    let mut out = vec![];
+    let mut long_name: Option<String> = None;
+    while pos + 512 <= tar.len() {
+        let h = &tar[pos..pos + 512];
+        if h.iter().all(|b| *b == 0) {
+            break;
+        }
+        let cstr = |b: &[u8]| String::from_utf8_lossy(&b[..b.iter().position(|c| *c == 0).unwrap_or(b.len())]).into_owned();
+        let size = usize::from_str_radix(cstr(&h[124..136]).trim(), 8).unwrap_or(0);
+        let data = &tar[pos + 512..(pos + 512 + size).min(tar.len())];
+        if h[156] == b'L' {
+            long_name = Some(cstr(data));
+        } else {
+            let mut name = cstr(&h[0..100]);
+            let prefix = cstr(&h[345..500]);
+            if !prefix.is_empty() && &h[257..262] == b"ustar" {
+                name = format!("{}/{}", prefix, name);
+            }
+            out.push(long_name.take().unwrap_or(name));
+        }
+        pos += 512 + size.div_ceil(512) * 512;
+    }
+    out
+}
+
+fn run_rustdeps(case: &Sx) -> Sx {
+    use sccache::verif_hooks::mock_command::ProcessCommandCreator;
+    let td = tempfile::Builder::new().prefix("vh-c13d-").tempdir_in("/dev/shm").unwrap();
+    let ws = td.path().canonicalize().unwrap();
+    std::fs::create_dir_all(ws.join("src")).unwrap();
+    std::fs::create_dir_all(ws.join("target/debug/deps")).unwrap();
+    std::fs::write(ws.join("src/cdep.rs"), "pub fn c() -> i32 { 1 }\n").unwrap();
+    std::fs::write(ws.join("src/top.rs"), "pub fn t() -> i32 { bdep::b() + ddep::d() }\n").unwrap();
+    if !rustc_run(&ws, &["--crate-name", "cdep", "--edition=2021", "--crate-type", "lib", "-C", "extra-filename=-1111", "--out-dir", "target/debug/deps", "src/cdep.rs"]) {
+        return Sx::sym("no_rustc");
+    }
+    let build = |name: &str, tag: &str, f: &str, uses: bool| -> bool {
+        std::fs::write(
+            ws.join(format!("src/{}.rs", name)),
+            if uses { format!("pub fn {}() -> i32 {{ cdep::c() + 1 }}\n", f) } else { format!("pub fn {}() -> i32 {{ 1 }}\n", f) },
+        )
+        .unwrap();
+        let extra = format!("extra-filename=-{}", tag);
+        let src = format!("src/{}.rs", name);
+        rustc_run(&ws, &["--crate-name", name, "--edition=2021", "--crate-type", "lib", "-C", &extra, "--out-dir", "target/debug/deps", "-L", "dependency=target/debug/deps", "--extern", "cdep=target/debug/deps/libcdep-1111.rlib", "-A", "unused-crate-dependencies", &src])
+    };
+    if !build("bdep", "2222", "b", false) || !build("ddep", "4444", "d", false) {
+        return Sx::sym("no_rustc");
+    }
+    let runtime = tokio::runtime::Builder::new_multi_thread().worker_threads(2).enable_all().build().unwrap();
+    let pool = runtime.handle().clone();
+    let env: Vec<(OsString, OsString)> = vec![
+        ("PATH".into(), std::env::var_os("PATH").unwrap_or_default()),
+        ("CARGO_PKG_NAME".into(), "top".into()),
+    ];
+    let vv = match std::process::Command::new("rustc").arg("-vV").output() {
+        Ok(o) if o.status.success() => String::from_utf8_lossy(&o.stdout).into_owned(),
+        _ => return Sx::sym("no_rustc"),
+    };
+    let exe = match std::env::split_paths(&std::env::var_os("PATH").unwrap_or_default()).map(|d| d.join("rustc")).find(|p| p.is_file()) {
+        Some(p) => p,
+        None => return Sx::sym("no_rustc"),
+    };
+    let client = JobClient::new_num(1);
+    let creator = <ProcessCommandCreator as sccache::verif_hooks::mock_command::CommandCreatorSync>::new(&client);
+    let rust = match runtime.block_on(comp::rust::Rust::new(creator.clone(), exe, &env, &vv, None, pool.clone())) {
+        Ok(r) => r,
+        Err(_) => return Sx::sym("no_rustc"),
+    };
+    let storage: Arc<dyn Storage> = Arc::new(DiskCache::new(
+        td.path().join("cache"),
+        u64::MAX,
+        &pool,
+        PreprocessorCacheModeConfig::default(),
+        CacheMode::ReadWrite,
+    ));
+    let args: Vec<OsString> = [
+        "--crate-name", "top", "--edition=2021", "--crate-type", "lib", "--emit=dep-info,link", "-C", "extra-filename=-3333",
+        "--out-dir", "target/debug/deps", "-L", "dependency=target/debug/deps",
+        "--extern", "bdep=target/debug/deps/libbdep-2222.rlib", "--extern", "ddep=target/debug/deps/libddep-4444.rlib", "src/top.rs",
+    ]
+    .iter()
+    .map(OsString::from)
+    .collect();
+    let mut out = vec![];
+    for op in case.list() {
+        if op.is_sym("package") {
+            let r = catch(|| -> anyhow::Result<Vec<String>> {
+                let hasher = match comp::Compiler::<ProcessCommandCreator>::parse_arguments(&rust, &args, &ws, &env) {
+                    CompilerArguments::Ok(h) => h,
+                    _ => anyhow::bail!("not cacheable"),
+                };
+                let hr = runtime.block_on(hasher.generate_hash_key(
+                    &creator,
+                    ws.clone(),
+                    env.clone(),
+                    true,
+                    &pool,
+                    false,
+                    storage.clone(),
+                    CacheControl::Default,
+                ))?;
+                let (inputs, _, _) = hr.compilation.into_dist_packagers(PathTransformer::new())?;
+                let mut tar = vec![];
+                inputs.write_inputs(&mut tar)?;
+                let mut names: Vec<String> = tar_names(&tar)
+                    .into_iter()
+                    .filter(|n| n.ends_with(".rlib"))
+                    .map(|n| n.rsplit('/').next().unwrap().to_owned())
+                    .collect();
+                names.sort();
+                Ok(names)
+            });
+            out.push(match r {
+                Ok(Ok(names)) => Sx::L(names.iter().map(|n| Sx::B(n.as_bytes().to_vec())).collect()),
+                Ok(Err(e)) => Sx::L(vec![Sx::sym("err"), Sx::B(format!("{:#}", e).into_bytes())]),
+                Err(_) => Sx::sym("panic"),
+            });
+        } else if op.is_sym("touch") {
+            out.push(Sx::sym("ok"));
+        } else {
+            let name = op.arg(1).str();
+            let (tag, f) = if name == "bdep" { ("2222", "b") } else { ("4444", "d") };
+            // a rebuild is later than anything before it
+            std::thread::sleep(std::time::Duration::from_millis(15));
+            out.push(Sx::sym(if build(&name, tag, f, op.arg(2).as_bool()) { "ok" } else { "build_failed" }));
+        }
+    }
+    Sx::L(out)
+}
+
 // ------------------------------------------------------------------ leg args
 
 fn os(b: &Sx) -> OsString {
@@ -1358,6 +1588,8 @@ fn main() {
         "request" => vh::run_lines(run_request),
         "toolchain" => vh::run_lines(run_toolchain),
         "rustinputs" => vh::run_lines(run_rustinputs),
+        "simplify" => vh::run_lines(run_simplify),
+        "rustdeps" => vh::run_lines(run_rustdeps),
         "args" => vh::run_lines(run_args),
         _ => {
             eprintln!("usage: c13 status|fallback|request|toolchain|args");
